@@ -507,7 +507,7 @@ maskload(const typename V::scalar_value_type * FASTOR_RESTRICT a, const int (&ma
             val_out[V::Size - i - 1] = a[V::Size - i - 1];
         }
     }
-    return val_out;
+    return V(val_out, false);
 }
 #ifdef FASTOR_AVX2_IMPL
 template<>
